@@ -142,6 +142,7 @@ package codec
 //@   assert at return#6 uint64: out(enc) == old(out(enc)) + "\"" + itoa(vt) + "\""
 //@   assert at return#7 float32: out(enc) == old(out(enc)) + ftoa(float64(vt), 32)
 //@   assert at return#8 float64: out(enc) == old(out(enc)) + ftoa(vt, 64)
+//@   assert at Format#0 timestamp: layoutLossless(arg1)
 //@   ensures append: hasPrefix(out(enc), old(out(enc))) && enc.b == old(enc.b)
 
 // ---- nil safety of the decoder (C06) ---------------------------------------------------------------
